@@ -145,7 +145,14 @@ def _handlers(ctx):
         ok, why = data_plane_probe(w, 'A', 'B', op['flow'])
         ctx.setdefault('probes', []).append((round(w.now, 2), ok, why))
         if not ok:
+            # no SA right now: let P's kernel see traffic (ACQUIRE) and look again once a lossless handshake has had time
+            # (looking only at probe instants would make the verdict depend on how the probe period resonates with lifetimes)
             w.packet('A', op['flow'])
+
+            def recheck():
+                ok2, why2 = data_plane_probe(w, 'A', 'B', op['flow'])
+                ctx['probes'].append((round(w.now, 2), ok2, why2))
+            w.after(2.0, recheck, 'probe.recheck')
     return {'hostile': do_hostile, 'kodd': do_kodd, 'probe': do_probe}
 
 
